@@ -19,6 +19,7 @@ type Replay struct {
 	Transit  *rh.TransitScript `json:"transit,omitempty"`
 	Book     []rh.BOp          `json:"book,omitempty"`
 	MaxConns int               `json:"max_conns,omitempty"`
+	ET       *rh.ETScenario    `json:"exit_transit,omitempty"`
 }
 
 // ---------------------------------------------------------------------------
@@ -130,6 +131,18 @@ func monitorBookDrained(c *vh.Ctx, rp Replay, obs []rh.BObs) {
 				serial++
 			} else if obs[i].Res == 1 && len(live) < rp.MaxConns {
 				sig := rp.Kind + "-limit-consumed-by-dead-tunnels"
+				if !collided {
+					sig = rp.Kind + "-connection-slot-leak"
+				}
+				c.Fail(sig, fmt.Sprintf("%s: step %d: open refused with 'connection limit exceeded' (limit %d) while only %d tunnels are alive; ConnectionCount()=%d",
+					rp.Name, i, rp.MaxConns, len(live), obs[i].Count), rp)
+			}
+		case "openzero":
+			if obs[i].Res == 1 && len(live) < rp.MaxConns {
+				sig := rp.Kind + "-limit-consumed-by-dead-tunnels"
+				if !collided {
+					sig = rp.Kind + "-connection-slot-leak"
+				}
 				c.Fail(sig, fmt.Sprintf("%s: step %d: open refused with 'connection limit exceeded' (limit %d) while only %d tunnels are alive; ConnectionCount()=%d",
 					rp.Name, i, rp.MaxConns, len(live), obs[i].Count), rp)
 			}
@@ -141,6 +154,11 @@ func monitorBookDrained(c *vh.Ctx, rp Replay, obs []rh.BObs) {
 			}
 		case "destclose":
 			delete(live, op.Serial)
+		}
+		// as long as no two peers shared a stream id, the counter is the number of records
+		if !collided && obs[i].Count != int64(len(obs[i].Recs)) {
+			c.Fail(rp.Kind+"-connection-slot-leak", fmt.Sprintf("%s: step %d (%+v): ConnectionCount()=%d but %d connection records exist (no stream id was shared)",
+				rp.Name, i, op, obs[i].Count, len(obs[i].Recs)), rp)
 		}
 		if obs[i].Note != "" {
 			c.Fail("harness-timeout", rp.Name+": "+obs[i].Note, rp)
@@ -181,6 +199,12 @@ func witnesses() []Replay {
 			{Op: "open", Peer: 1, ID: 1}, {Op: "open", Peer: 2, ID: 1}, {Op: "close", Peer: 1, ID: 1}, {Op: "close", Peer: 2, ID: 1}, {Op: "destclose", Serial: 0},
 			{Op: "open", Peer: 1, ID: 3}, {Op: "open", Peer: 2, ID: 3}, {Op: "close", Peer: 1, ID: 3}, {Op: "close", Peer: 2, ID: 3}, {Op: "destclose", Serial: 2},
 			{Op: "open", Peer: 3, ID: 1}}},
+		{Kind: "exit", Name: "exit-zero-key-opens", MaxConns: 2, Book: []rh.BOp{
+			{Op: "openzero", Peer: 1, ID: 1}, {Op: "openzero", Peer: 2, ID: 1}, {Op: "openzero", Peer: 1, ID: 3},
+			{Op: "open", Peer: 3, ID: 1}, {Op: "close", Peer: 3, ID: 1}}},
+		{Kind: "forward", Name: "forward-zero-key-opens", MaxConns: 2, Book: []rh.BOp{
+			{Op: "openzero", Peer: 1, ID: 1}, {Op: "openzero", Peer: 2, ID: 1}, {Op: "openzero", Peer: 1, ID: 3},
+			{Op: "open", Peer: 3, ID: 1}, {Op: "close", Peer: 3, ID: 1}}},
 		{Kind: "forward", Name: "forward-limit-consumed", MaxConns: 2, Book: []rh.BOp{
 			{Op: "open", Peer: 1, ID: 1}, {Op: "open", Peer: 2, ID: 1}, {Op: "close", Peer: 1, ID: 1}, {Op: "close", Peer: 2, ID: 1}, {Op: "destclose", Serial: 0},
 			{Op: "open", Peer: 1, ID: 3}, {Op: "open", Peer: 2, ID: 3}, {Op: "close", Peer: 1, ID: 3}, {Op: "close", Peer: 2, ID: 3}, {Op: "destclose", Serial: 2},
@@ -273,12 +297,15 @@ func main() {
 		coq = append(coq, rh.CoqACase(*rp.Transit, obs))
 	}
 	_ = coqB
+	var etReplay *rh.ETScenario
 	if c.Replay != "" {
 		var rp Replay
 		if err := c.ReadReplay(&rp); err != nil {
 			panic(err)
 		}
 		switch rp.Kind {
+		case "exittransit":
+			etReplay = rp.ET
 		case "table":
 			runTable(rp)
 		case "transit":
@@ -327,7 +354,7 @@ func main() {
 			var sc rh.TransitScript
 			var obs []rh.AObs
 			var ended []rh.Tunnel
-			p := vh.Recover(func() { sc, obs, ended = rh.GenTransitHistory(r, 8+r.Intn(24), run) })
+			p := vh.Recover(func() { sc, obs, ended = rh.GenTransitHistory(r, 8+r.Intn(24), run, i%2 == 1) })
 			run.Close()
 			rp := Replay{Kind: "transit", Name: fmt.Sprintf("transit-%d", i), Transit: &sc}
 			if p != "" {
@@ -361,6 +388,36 @@ func main() {
 			monitorBookDrained(c, rp, obs)
 			bookCases = append(bookCases, rh.CoqBCase(rp.MaxConns, rp.Book, obs))
 		}
+	}
+	// one agent that is exit for peer 1 and transit for peer 2 with equal numeric
+	// ids: after the relayed tunnel ends (CLOSE / RESET from either side) and then
+	// the exit tunnel, the relay tables and the exit endpoints must be empty
+	// (monitor only; these cases come after every model-backed case)
+	runET := func(sc rh.ETScenario) {
+		rp := Replay{Kind: "exittransit", Name: fmt.Sprintf("exit+transit fam=%d dir=%s kind=%d", sc.Fam, sc.Dir, sc.Kind), ET: &sc}
+		var o rh.ETObs
+		var err error
+		if p := vh.Recover(func() { o, err = rh.RunExitTransit(sc) }); p != "" || err != nil {
+			c.Fail("panic", fmt.Sprintf("%s: %s %v", rp.Name, p, err), rp)
+			return
+		}
+		c.Count(fmt.Sprintf("exit+transit:%d/%s/%d", sc.Fam, sc.Dir, sc.Kind))
+		c.Case(rp.Name, true, rp)
+		if !o.OpenedExit || o.RelayDownID == 0 {
+			c.Fail("harness-timeout", rp.Name+": scenario could not be set up: "+o.Notes, rp)
+			return
+		}
+		_, drain := rh.CheckExitTransit(sc, o)
+		for _, d := range drain {
+			c.Fail("relay-entry-leak-behind-local-endpoint", rp.Name+": "+d, rp)
+		}
+	}
+	if c.Replay == "" {
+		for _, sc := range rh.AllExitTransit() {
+			runET(sc)
+		}
+	} else if etReplay != nil {
+		runET(*etReplay)
 	}
 	var sb strings.Builder
 	sb.WriteString("From Coq Require Import List NArith ZArith Bool.\nFrom MM Require Import Model.Relay Model.ExitBook.\nImport ListNotations.\nLocal Open Scope N_scope.\n")
